@@ -19,6 +19,7 @@ def genFacts9 : Facts9 :=
     fresh := Generated.matchFresh
     identity := Generated.identityMarkers
     moduleWrites := Generated.matchModuleWrites
-    userAttrs := Generated.matchUserAttrs }
+    userAttrs := Generated.matchUserAttrs
+    targetTests := Generated.matchTargetTests }
 
 end Glom.C09
